@@ -93,6 +93,18 @@ CHECKS = {
          "Seeded histories of jj bookmark create/move/delete, jj git push (--bookmark / --all / --deleted), emulated fetch, and another clone's fast-forward, forced and deleting pushes. After every jj push, per bookmark: if the remote branch was not where jj last recorded it, it must be exactly where the other clone left it and jj's record and local bookmark must be unchanged; branches not part of the push never move; otherwise the remote ends at the pushed target (or stays) and jj's record follows.",
          "jj git fetch is emulated with git fetch + jj git import (system git 2.39 lacks fetch --porcelain). Operation granularity suffices because the lease expectation comes from the view loaded before the push and the compare-and-swap is git's.",
          "§3.6, §4 C45"),
+ "C40": ("clisim", "exploration", "deterministic simulation of command histories through the real jj binary: seeded commands, file edits, commands at older operations, stale workspaces; observation through jj-lib; disk-state bookkeeping per command",
+         "Seeded histories of 8-18 real jj commands (new, describe, commit, squash, abandon, rebase, edit, duplicate, bookmark set/delete, restore, undo/redo, op restore, workspace add/update-stale, --at-op commands that create divergent operations, --ignore-working-copy commands) in one repository with up to two workspaces, interleaved with user edits. For every command that snapshots, every file content on disk when it started must afterwards be on disk or in a working-copy commit of that workspace recorded by some operation in the log (materialized conflict files count as recorded when the path holds the conflict).",
+         "Only small, non-ignored files are generated; split/absorb and other interactive commands are not in the mix; process kills inside a command are C15's subject.",
+         "§3.5, §4 C40"),
+ "C41": ("clisim", "exploration", "deterministic simulation of command histories through the real jj binary: seeded commands, file edits, commands at older operations, stale workspaces; observation through jj-lib; undo stack judged against the operation DAG",
+         "Same histories; after `op restore X` the heads, local bookmarks, tags and working-copy pointers equal those of X's view; after the j-th consecutive undo they equal those of the j-th ancestor of the operation that was the head when the undos began; redo walks back. Undo/redo sequences are kept inside the current run of plain successful commands of the default workspace, where the documented stack is unambiguous. immutable_heads() = none() in these runs, so the permitted difference never arises.",
+         "op revert of older operations (a three-way view merge without equality oracle) is not judged; no file edits directly before undo/redo/op restore.",
+         "§4 C41"),
+ "C42": ("clisim", "exploration", "deterministic simulation of command histories through the real jj binary: seeded commands, file edits, commands at older operations, stale workspaces; observation through jj-lib; immutable set evaluated before, visibility after each rewriting command",
+         "Histories start with protected history (bookmark trunk; revset-aliases.immutable_heads() = present(trunk) | tags()) and aim half of their revision arguments at protected commits. Before each judged command (describe, abandon, rebase, squash --from/--into, edit, new, commit, restore, duplicate) the harness computes the ancestors of trunk/tags through jj-lib; afterwards every one of those commit ids must still be visible. Commands that move the bookmark itself, operation-log commands and --at-op commands are not judged.",
+         "Visibility of the same commit id is the criterion (a rewritten commit gets a new id); --ignore-immutable is never passed.",
+         "§4 C42"),
  "C21": ("tablesim", "exploration", "deterministic simulation: seeded baton scheduler over the table store's file-system primitives, crash and ineffective-lock faults, key/value reference model",
          "Seeded search over interleavings of 2-4 simulated processes (lock-less saves, locked saves, readers with reload) at the real TableStore's list/load/persist/add-head/remove-head/lock steps on tmpfs, with process crashes and ineffective locks; oracle is a map of completed saves (every completed save's entries present, later sequential save wins, heads never empty, reload does not change lookups). Sampling, not proof: the right level because the property quantifies over schedules the suite cannot control.",
          "Trusts: atomicity of readdir/create/unlink/rename as single steps; the hook points sit inside the primitives; HashMap order does not reach the event log (checked by the determinism sweep). Three known findings (known_findings.jsonl) are reported as KNOWN-FINDING and not as violations.",
@@ -100,6 +112,7 @@ CHECKS = {
 }
 
 ENGINES = {
+ "clisim": ("sim/src/engines/clisim.rs", "command histories through the real jj binary with workspaces, older-operation commands and edits"),
  "gitsim": ("sim/src/engines/gitsim.rs", "jj import/export vs. an external git party on one Git repository"),
  "pushsim": ("sim/src/engines/pushsim.rs", "jj git push vs. another clone on a bare remote (real binaries)"),
  "tasksim": ("sim/src/engines/tasksim.rs", "tree merger under a seeded completion order of backend futures"),
